@@ -27,6 +27,7 @@ type AtCall struct {
 	Callee string
 	Ord    int // 0 = every occurrence
 	Assume bool
+	Ghost  *GhostUpdate // ghost assignment executed just before the call
 	Names  []string // names for results (assumes) — optional
 	Clause *Clause
 }
@@ -44,10 +45,19 @@ type FuncContract struct {
 	Thread    bool
 	Exits     []*Clause // thread-exit clauses
 	ChanInvs  []*ChanInv
+	Ghosts    []*GhostDecl
 	Trusted   bool // contract is assumed, body not verified (interface methods, externals)
 	SharedAtomics bool
 	File      string
 	Line      int
+}
+
+// GhostUpdate: name[i1][i2].. = value
+type GhostUpdate struct {
+	Name  string
+	Index []*Expr
+	Value *Expr
+	Text  string
 }
 
 type ChanInv struct {
@@ -320,6 +330,31 @@ func (db *ContractDB) parseLines(p *packages.Package, file string, lines []srcLi
 				head = head[:j]
 			}
 			ac.Callee = head
+			if first == "at" && strings.HasPrefix(body, "ghost ") {
+				// at call X#k: ghost name[i][j] = e
+				g := strings.TrimSpace(strings.TrimPrefix(body, "ghost"))
+				eqi := strings.Index(g, " = ")
+				if eqi < 0 {
+					db.errf(file, it.line, "ghost update needs ' = '")
+					continue
+				}
+				lhs, err1 := parseExpr(strings.TrimSpace(g[:eqi]))
+				rhs, err2 := parseExpr(strings.TrimSpace(g[eqi+3:]))
+				if err1 != nil || err2 != nil {
+					db.errf(file, it.line, "cannot parse ghost update %q", g)
+					continue
+				}
+				gu := &GhostUpdate{Value: rhs, Text: g}
+				for lhs.Op == "index" {
+					gu.Index = append([]*Expr{lhs.Args[1]}, gu.Index...)
+					lhs = lhs.Args[0]
+				}
+				gu.Name = lhs.Name
+				ac.Ghost = gu
+				ac.Clause = &Clause{Kind: "ghost", Text: g, File: file, Line: it.line}
+				curFunc.AtCalls = append(curFunc.AtCalls, ac)
+				continue
+			}
 			if first == "at" {
 				body = strings.TrimSpace(strings.TrimPrefix(body, "assert"))
 			}
@@ -373,6 +408,14 @@ func (db *ContractDB) parseLines(p *packages.Package, file string, lines []srcLi
 			}
 		case "ghost":
 			// ghost name sort [under mutex]
+			if curType == nil && curFunc != nil {
+				// function-level ghost: ghost name <smt sort>
+				i := strings.IndexAny(rest, " \t")
+				if i > 0 {
+					curFunc.Ghosts = append(curFunc.Ghosts, &GhostDecl{Name: rest[:i], Sort: strings.TrimSpace(rest[i:])})
+				}
+				continue
+			}
 			if curType == nil {
 				continue
 			}
